@@ -101,3 +101,46 @@ pub broadcast proof fn lemma_mt_any(ts: Seq<Ty>, k: int)
 pub open spec fn sig_mentions_tparam(f: Fn) -> bool {
     f.generics@.len() > 0 || (exists|i: int| 0 <= i < f.params@.len() && mentions_tparam((#[trigger] f.params@[i]).1)) || mentions_tparam(f.ret_ty)
 }
+
+// ---- the EVar arm: a generic function used as a VALUE (C07: every reachable instantiation is generated) ----
+pub uninterp spec fn subst_res(t: Ty, s: Map<Seq<char>, Ty>) -> Ty;                                  // subst_ty (proved in U-MSUBST; opaque here)
+#[verifier::external_body] pub fn subst_ty(ty: &Ty, s: &Subst) -> (r: Ty) ensures r == subst_res(*ty, s@) { unimplemented!() }
+// lookup_callee: the function a name refers to (orig_fns, or the generic inherent method behind an instantiated method name)
+impl Ctx { pub uninterp spec fn callee_of(&self, name: Seq<char>) -> Option<Fn>; }
+#[verifier::external_body]
+pub fn lookup_callee<'a>(ctx: &'a Ctx, name: &String) -> (r: Option<&'a Fn>)
+    ensures r matches Some(f) ==> ctx.callee_of(name@) == Some(*f), r is None ==> ctx.callee_of(name@) is None,
+{ unimplemented!() }
+// mono::unify is a deterministic function of its arguments: whether it succeeds from a given substitution, and with what result
+// (ASSUMED here, on top of the clauses U-MUNIFY proves: a pure function has a function as its graph)
+pub uninterp spec fn unify_ok(template: Ty, actual: Ty, s0: Map<Seq<char>, Ty>) -> bool;
+pub uninterp spec fn unify_out(template: Ty, actual: Ty, s0: Map<Seq<char>, Ty>) -> Map<Seq<char>, Ty>;
+#[verifier::external_body]
+pub fn unify_det(template: &Ty, actual: &Ty, subst: &mut Subst) -> (r: Result<(), String>)
+    ensures extends(old(subst)@, final(subst)@),
+            r is Ok ==> is_apply(*template, final(subst)@, *actual) && covers(*template, final(subst)@),
+            (r is Ok) == unify_ok(*template, *actual, old(subst)@),
+            r is Ok ==> final(subst)@ == unify_out(*template, *actual, old(subst)@),
+{ unimplemented!() }
+pub uninterp spec fn map_mentions_tparam(s: Map<Seq<char>, Ty>) -> bool;                               // some binding still mentions a type parameter
+#[verifier::external_body] pub fn subst_any_tparam_v(s: &Subst) -> (r: bool) ensures r == map_mentions_tparam(s@) { unimplemented!() }   // s.values().any(has_tparam)
+// t is the function type of f's signature: (parameter types) -> result type
+pub open spec fn fn_sig_ty(f: Fn, t: Ty) -> bool {
+    t matches Ty::TFunc { params, ret_ty } && params@.len() == f.params@.len() && *ret_ty == f.ret_ty
+        && forall|i: int| 0 <= i < params@.len() ==> #[trigger] params@[i] == f.params@[i].1
+}
+// the use of `name` at type t after specialisation is `n`
+pub open spec fn renamed_ok(ctx: &Ctx, name: Seq<char>, n: Seq<char>, t: Ty, f: Fn, tt: Ty, m: Map<Seq<char>, Ty>) -> bool {
+    ctx.callee_of(name) == Some(f) && fn_sig_ty(f, tt) && n == inst_name(f.name@, m) && is_apply(tt, m, t)
+}
+pub open spec fn kept_ok(f: Fn, t: Ty, tt: Ty) -> bool {
+    fn_sig_ty(f, tt) && (!unify_ok(tt, t, Map::<Seq<char>, Ty>::empty()) || map_mentions_tparam(unify_out(tt, t, Map::<Seq<char>, Ty>::empty())))
+}
+pub open spec fn value_use_ok(ctx: &Ctx, name: Seq<char>, n: Seq<char>, t: Ty) -> bool {
+    // either the use names the instance of the function behind the name at a substitution under which its signature IS the use type ..
+    ||| exists|f: Fn, tt: Ty, m: Map<Seq<char>, Ty>| #[trigger] renamed_ok(ctx, name, n, t, f, tt, m)
+    // .. or the name is kept — for a generic function only where no instance can be determined: unifying its signature with the use
+    // type fails or leaves a type parameter
+    ||| (n == name && ((ctx.callee_of(name) is Some && sig_mentions_tparam(ctx.callee_of(name)->0))
+            ==> exists|tt: Ty| #[trigger] kept_ok(ctx.callee_of(name)->0, t, tt)))
+}
